@@ -2,17 +2,21 @@
 (* generator / model-checking module for spec/PageNumber.tla *)
 EXTENDS PageNumber, Json
 
-CONSTANTS Mode,      \* "grid": links over /zqs/x/y ; "one": links over /zqs/view/y ; "conv": conventional pagers 1..N
+CONSTANTS Mode,      \* link family: "grid" /zqs/x/y, "one" /zqs/view/y, "file" /zqs/view-y.html, "q" ?pg=y, "q2" ?pg=x&x=y ; "conv": conventional pagers 1..N of the families one, file, q
           MaxLen, Nums, Coords, MaxN, Dump
 
 Brk == [t |-> "brk", n |-> 0, u |-> NoURL]
 Num(n, u) == [t |-> "num", n |-> n, u |-> u]
 
-GridURLs == {Grid(x, y) : x \in Coords, y \in Coords}
-OneURLs  == {One(y) : y \in Nums}
+FamURLs == CASE Mode = "grid" -> {Grid(x, y) : x \in Coords, y \in Coords}
+             [] Mode = "q2"   -> {Q2(x, y) : x \in Coords, y \in Coords}
+             [] Mode = "one"  -> {One(y) : y \in Nums}
+             [] Mode = "file" -> {File(y) : y \in Nums}
+             [] Mode = "q"    -> {Q(y) : y \in Nums}
+             [] OTHER         -> {}
 Alphabet == {Brk} \cup {Num(n, NoURL) : n \in Nums} \cup {Num(n, Js) : n \in Nums} \cup {Num(n, Empty) : n \in Nums}
-            \cup (IF Mode = "grid" THEN {Num(n, u) : n \in Nums, u \in GridURLs} ELSE {Num(n, u) : n \in Nums, u \in OneURLs})
-Docs == IF Mode = "grid" THEN GridURLs \cup {Base} ELSE OneURLs \cup {Base}
+            \cup {Num(n, u) : n \in Nums, u \in FamURLs}
+Docs == FamURLs \cup {Base}
 
 \* sequences worth running: at least two links, no leading/trailing/double separator
 Worth(s) == /\ Cardinality({i \in DOMAIN s : IsLink(s[i])}) >= 2
@@ -20,12 +24,14 @@ Worth(s) == /\ Cardinality({i \in DOMAIN s : IsLink(s[i])}) >= 2
             /\ \A i \in 1..(Len(s) - 1) : ~(s[i] = Brk /\ s[i + 1] = Brk)
 
 \* the conventional pager of C17: pages 1..n as links of one pattern, page k as plain text
-Conv(n, k) == [i \in 1..n |-> IF i = k THEN Num(i, NoURL) ELSE Num(i, One(i))]
+ConvFams == {"one", "file", "q"}
+U(fam, i) == CASE fam = "one" -> One(i) [] fam = "file" -> File(i) [] fam = "q" -> Q(i)
+Conv(fam, n, k) == [i \in 1..n |-> IF i = k THEN Num(i, NoURL) ELSE Num(i, U(fam, i))]
 
 MCInit ==
     /\ pc = "scan" /\ groups = <<>> /\ gi = 0 /\ asc = <<>> /\ todo = {} /\ gstate = D0 /\ dstate = D0 /\ answer = NoAnswer
     /\ IF Mode = "conv"
-       THEN \E n \in 2..MaxN : \E k \in 1..n : items = Conv(n, k) /\ doc = One(k)
+       THEN \E fam \in ConvFams : \E n \in 2..MaxN : \E k \in 1..n : items = Conv(fam, n, k) /\ doc = U(fam, k)
        ELSE /\ items \in {s \in UNION {[1..m -> Alphabet] : m \in 2..MaxLen} : Worth(s)}
             /\ doc \in Docs
 
@@ -38,8 +44,9 @@ Conventional ==
     (Mode = "conv" /\ pc = "done") =>
         LET n == Len(items)
             k == doc.y
-        IN  /\ answer.next = IF k < n THEN One(k + 1) ELSE NoURL
-            /\ answer.prev = IF k > 1 THEN One(k - 1) ELSE NoURL
+            u(i) == [doc EXCEPT !.y = i]
+        IN  /\ answer.next = IF k < n THEN u(k + 1) ELSE NoURL
+            /\ answer.prev = IF k > 1 THEN u(k - 1) ELSE NoURL
 
 DumpCase == (Dump /\ pc = "done") =>
     PrintT(<<"@@CASE", ToJson([p |-> [items |-> items, doc |-> doc, answer |-> answer, canon |-> Canonical(items, doc),
